@@ -39,6 +39,15 @@ def _run(ctx, replay):
         hc = vlib.tlc_gen(ctx, "Gen_StreamCount", n - n // 2, 60, seed * 104729 + 4)
         scen = [{"id": "stream-%d-%d" % (seed, i), "steps": h} for i, h in enumerate(hs)] + \
                [{"id": "streamcount-%d-%d" % (seed, i), "steps": h} for i, h in enumerate(hc)]
+        # direct binding of actions.MessageStreamer with a connection that acknowledges inside Send and
+        # returns only when the ack has been completely handled (on the stream / outside it): the publishes
+        # of the generated scripts, message-count flow control
+        for i, h in enumerate(hc[: (6 if tier == "quick" else 100)]):
+            # one outstanding message at a time: a slot that is never freed stops the stream for good
+            pubs = [dict(st, fcM=1, fcB=1000) if st["op"] == "Open" else st for st in h if st["op"] in ("Open", "Publish")]
+            if len(pubs) > 1:
+                for kind in ("stream", "external"):
+                    scen.append({"id": "eager-%s-%d-%d" % (kind, seed, i), "steps": pubs, "eager": kind})
     sp = os.path.join(ctx.scratch, "scen.ndjson")
     vlib.write_scenarios(sp, scen)
     tp = os.path.join(ctx.scratch, "trace.ndjson")
